@@ -998,8 +998,107 @@ def lfo_retune_cases(ctx):
             ctx.violation(bad[0], bad[1], {"suite": "lfo-retune", "tpb": tpb, "initial": [f0, lo0, lo0 + w0], "ways": how_used, "ticks": ticks})
 
 
+def lfo_entry_point_cases(ctx):
+    """'A sine LFO's value stays within [min, max] ... and reads as a pattern with that same value' from the moment the LFO exists,
+    through every documented argument of Timeline.lfo() — `quantize`, `delay`, a name, `replace` — whatever the implementation
+    makes of a delayed start (the property does not say when the oscillation begins; it says where the value is).  Ranges that do
+    not contain 0 are the interesting ones.  Also: a move requested from INSIDE a bound method of an automation, while it
+    receives the last value of the previous move, is a move like any other — the automation arrives at the new target after
+    ceil(duration / tick) further ticks.  Implementation-only oracles."""
+    common.ensure_repo_on_path()
+    import isobar as iso
+    from isobar.io.output import OutputDevice
+    import math
+    r = ctx.rng
+
+    class Null(OutputDevice):
+        pass
+    for i in range(ctx.scale(60, 2500)):
+        tpb = r.choice([4, 8, 24, 96])
+        tl = iso.Timeline(120, output_device=Null(), clock_source=iso.DummyClock(ticks_per_beat=tpb))
+        lo = r.choice([0.2, 200.0, -3.0, 1.0, 0.0, -1.0])
+        hi = lo + r.choice([0.6, 2.0, 1800.0])
+        kw = {}
+        if r.random() < 0.7:
+            kw["delay"] = r.choice([0.25, 0.5, 1, 2])
+        if r.random() < 0.5:
+            kw["quantize"] = r.choice([0.5, 1, 2])
+        if r.random() < 0.3:
+            kw["name"] = "lfo-%d" % i
+        for _ in range(r.randint(0, 2 * tpb)):
+            tl.tick()
+        l = tl.lfo({"shape": "sine", "frequency": r.choice([0.5, 1.0, 2.0]), "min": lo, "max": hi}, **kw)
+        pl = iso.Pattern.pattern(l)
+        bad = None
+        eps = 1e-9 * max(1.0, abs(lo), abs(hi))
+        tl.tick()           # (the value an LFO shows before its first tick is the constructor's, not an oscillator output)
+        for k in range(1, 4 * tpb):
+            v = l.value
+            pv = next(pl)
+            if not (lo - eps <= v <= hi + eps):
+                bad = "tick %d after Timeline.lfo(%s): value %r is outside [%s, %s]" % (k, kw, v, lo, hi)
+                break
+            if pv != v:
+                bad = "tick %d after Timeline.lfo(%s): read as a pattern %r, value %r" % (k, kw, pv, v)
+                break
+            tl.tick()
+        ctx.case(("lfo-entry", tpb, lo, hi, repr(sorted(kw.items()))), nontrivial=bool(kw), validated=False,
+                 sample={"lfo_entry_point": {"tpb": tpb, "min": lo, "max": hi, "arguments": repr(kw)}} if i < 3 else None)
+        ctx.count("lfo-entry:" + ("+".join(sorted(kw)) or "plain"))
+        if bad:
+            ctx.violation("C18:lfo:range:entry-point", bad, {"suite": "c18-lfo-entry", "tpb": tpb, "min": lo, "max": hi, "arguments": repr(kw),
+                                                             "first_failing_clause": "a sine LFO's value stays within [min, max]"})
+    # re-entrant moves
+    for i in range(ctx.scale(60, 2500)):
+        tpb = r.choice([4, 8, 10, 24])
+        tl = iso.Timeline(120, output_device=Null(), clock_source=iso.DummyClock(ticks_per_beat=tpb))
+        targets = []
+        for _ in range(r.randint(2, 4)):
+            targets.append(r.choice([x for x in (0.0, 0.25, 0.5, 1.0, 3.0, -2.0) if not targets or x != targets[-1]]))
+        durs = [r.choice([0.5, 1, 1.5, 2]) for _ in targets]
+        a = tl.automation(initial=r.choice([x for x in (0.0, 0.5, 1.0) if x != targets[0]]))
+        arrived = []
+
+        def near(x, y):
+            return abs(x - y) <= 1e-9 * max(1.0, abs(x), abs(y))
+        state = {"next": 1, "tick": 0}
+
+        class Sink:
+            def set_param(self_inner, value, *rest):
+                j = state["next"]
+                if j < len(targets) and near(value, targets[j - 1]):
+                    state["next"] = j + 1
+                    arrived.append((j - 1, state["tick"]))
+                    a.move_to(targets[j], duration=durs[j])
+        a.bind_to(Sink(), "set_param", mode="method")
+        a.move_to(targets[0], duration=durs[0])
+        final_tick = None
+        for k in range(1, int(sum(durs) * tpb) + 4 * tpb):
+            state["tick"] = k
+            tl.tick()
+            if state["next"] == len(targets) and near(a.value, targets[-1]) and final_tick is None:
+                final_tick = k
+        exp_ticks, acc = [], 0
+        for d in durs:
+            acc += max(1, math.ceil(d * tpb - 1e-9))
+            exp_ticks.append(acc)
+        got_ticks = [t for _j, t in arrived] + ([final_tick] if final_tick is not None else [])
+        ctx.case(("reentrant", tpb, tuple(targets), tuple(durs)), nontrivial=True, validated=False,
+                 sample={"reentrant_moves": {"tpb": tpb, "targets": targets, "durations": durs}} if i < 3 else None)
+        ctx.count("reentrant-moves:%d" % len(targets))
+        # (on which tick a move requested in mid-tick counts as begun is the implementation's business: the oracle asks that
+        #  every requested move is carried out and that the automation comes to rest on the last target)
+        if not near(a.value, targets[-1]) or state["next"] != len(targets):
+            ctx.violation("C18:arrival:reentrant-move",
+                          "moves %s over %s beats, each requested from the bound method when the previous target arrives (%d ticks per beat): "
+                          "arrivals on ticks %s (expected %s), final value %r" % (targets, durs, tpb, got_ticks, exp_ticks, a.value),
+                          {"suite": "c18-reentrant", "tpb": tpb, "targets": targets, "durations": durs,
+                           "first_failing_clause": "arrives exactly at the target after ceil(duration / tick) ticks"})
+
+
 def run(ctx):
     lfo_retune_cases(ctx)
+    lfo_entry_point_cases(ctx)
     n = ctx.scale(2000, 40000)
     cases = []
     for i in range(n):
